@@ -26,7 +26,7 @@ RULE = (
     "source whose pre_send / post_send are sync or async, cancelling (ScheduledTaskCancelledError) or not, and a broker "
     "whose kick may fail; codec JSON / pickle / JSONFormatter. Oracle: order pre_send -> kick -> post_send; cancel => no "
     "kick and no post_send; failing kick => SendTaskError and no post_send; otherwise exactly one message whose decoded "
-    "task name, args, kwargs and typed labels equal the schedule's plus its schedule_id. (2) 'label_source': a "
+    "task name, args, kwargs and typed labels equal the schedule's plus its schedule_id - nothing more, also when an earlier schedule of the same task with other labels went through the same scheduler instance. (2) 'label_source': a "
     "RuleBasedStateMachine over the real LabelScheduleSource: 1-3 tasks on the source's own broker or shared "
     "(foreign-broker) tasks, each with 0-5 schedule entries of kind cron / time / both / neither / with extra keys, "
     "duplicates and equal times; rules list and fire (= real scheduler.on_ready on any schedule of ANY earlier listing, "
@@ -56,6 +56,8 @@ def on_ready_cases() -> Any:
         "pre": st.sampled_from(["none", "sync", "async"]), "post": st.sampled_from(["none", "sync", "async"]),
         "cancel": st.sampled_from([False, False, True]), "kick_fails": st.sampled_from([False, False, False, True]),
         "codec": st.sampled_from(["json", "pickle", "jsonfmt"]), "sid": st.text(alphabet="abcdef0123456789-", min_size=1, max_size=12),
+        # an earlier schedule of the SAME task fired through the same scheduler instance, with labels of its own
+        "before": st.one_of(st.none(), st.fixed_dictionaries({"labels": LABELS, "args": st.lists(JSONV, max_size=2)})),
     })
 
 
@@ -133,6 +135,15 @@ def run_on_ready(c: Dict[str, Any]) -> Outcome:
         sched = TaskiqScheduler(b, [src])
         kw = {"cron": "* * * * *"} if c["kind"] == "cron" else {"time": T0}
         task = ScheduledTask(task_name="some.task", labels=dict(labels), args=list(c["args"]), kwargs=dict(c["kwargs"]), schedule_id=c["sid"], **kw)
+        if c.get("before"):
+            quiet = type("Quiet", (ScheduleSource,), {"get_schedules": get_schedules})()
+            first = ScheduledTask(task_name="some.task", labels={k: dec(v) for k, v in c["before"]["labels"].items()},
+                                  args=list(c["before"]["args"]), kwargs={}, schedule_id="earlier", cron="* * * * *")
+            b.fail = False
+            await sched.on_ready(quiet, first)
+            b.fail = c["kick_fails"]
+            b.sent.clear()
+            log.clear()
         err = None
         try:
             await sched.on_ready(src, task)
@@ -173,7 +184,7 @@ def run_on_ready(c: Dict[str, Any]) -> Outcome:
                 out.add("C16.b", f"sent labels {short(tm.labels, 200)} != schedule labels + schedule_id {short(want, 200)}")
     out.nontrivial = bool(cancels or c["kick_fails"] or labels or c["args"] or c["kwargs"])
     out.classes = [c["codec"], c["kind"]] + [cl for cl, f in (("cancelled", cancels), ("kick_fails", c["kick_fails"]),
-                                                             ("async_callback", "async" in (c["pre"], c["post"]))) if f]
+                                                             ("async_callback", "async" in (c["pre"], c["post"])), ("earlier_schedule_same_task", bool(c.get("before")))) if f]
     return out
 
 
